@@ -495,6 +495,9 @@ func writeEvidence(w World, tier string, base uint64, st *Stats, t0 time.Time, n
 		"known_findings":     known,
 		"notes":              st.Notes,
 	}
+	if cc := os.Getenv("SIM_CROSSCHECK"); cc != "" {
+		cov["plain_tree_crosscheck"] = cc
+	}
 	if len(st.Samples) == 0 {
 		cov["samples"] = []interface{}{"no run completed"}
 	}
